@@ -4,4 +4,4 @@
 Require Import ExtrOcamlBasic.
 From AtreeModel Require Import Proto StorageTrace.
 Extraction Language OCaml.
-Extraction "model.ml" check_storage.
+Extraction "model.ml" chk_storage.
